@@ -1,0 +1,12 @@
+//go:build verif
+
+package hls
+
+// Machine-checked contracts for /verif (govc). Comment-only: compiled only with -tags verif, adds no code.
+
+//@ func multiplyAndDivide
+//@   property C24
+//@   domain d >= 1 && m >= 1
+//@   requires d >= 1 && m >= 1 ==> (d-1)*m <= 9223372036854775807
+//@   domain inI64(tdiv(v*m, d))
+//@   ensures result == tdiv(v*m, d)
